@@ -73,7 +73,7 @@ _SIMSTAT = re.compile(r"The number of states generated: (\d+)")
 
 def run_tlc(module_path, cfg_path, *, workers=16, simulate=None, depth=None, seed=None,
             coverage=False, extra_env=None, timeout=3600, deadlock=None, java_opts=None,
-            dfid=None, want_prints=True, extra_args=None):
+            dfid=None, want_prints=True, extra_args=None, tolerate_overflow=False):
     """Run TLC on module_path with cfg_path. Returns TlcResult. Raises MachineryError on crashes."""
     meta = tempfile.mkdtemp(prefix="tlcmeta-", dir=scratch())
     cmd = ["java", "-XX:+UseParallelGC", "-Xmx8g"]
@@ -141,6 +141,8 @@ def run_tlc(module_path, cfg_path, *, workers=16, simulate=None, depth=None, see
     if r.violated:
         i = out.find("Error:")
         r.cex = out[i:i + 20000]
+    elif tolerate_overflow and "Error: Overflow when computing" in out:
+        r.overflow = True                     # the evaluator left TLC's 32-bit integers: the caller skips that case
     elif rc != 0 or "Error:" in out:
         i = out.find("Error:")
         r.error = out[i:i + 4000] if i >= 0 else out[-4000:]
